@@ -327,6 +327,10 @@ func (c *Classifier) LoadLicenses(dir string) error {
 		if !strings.HasSuffix(path, "txt") {
 			return nil
 		}
+		if info.IsDir() {
+			// A directory whose name happens to end in "txt" is not a license file.
+			return nil
+		}
 		files = append(files, path)
 		return nil
 	})
